@@ -106,7 +106,46 @@ Proof.
     + rewrite Forall_forall in IH, Hch. eapply IH; eauto.
 Qed.
 
+(* ---------- NewTree ; AddChild ... ; NewTree ------------------------------------------------------ *)
+
+Lemma strip_with_aggs : forall n : tnode, strip G (with_aggs gadd n) = strip G n.
+Proof.
+  induction n as [id srv i g ch IH] using tnode_ind2. cbn [with_aggs strip]. f_equal.
+  rewrite map_map. apply map_ext_in. rewrite Forall_forall in IH. exact IH.
+Qed.
+
+Lemma strip_add_child : forall path (c n : tnode),
+  strip G (add_child path c n) = add_child path (strip G c) (strip G n).
+Proof.
+  induction path as [|k r IH]; intros c n; destruct n as [id srv i g ch]; cbn [add_child strip].
+  - rewrite map_app. reflexivity.
+  - f_equal. generalize 0 as j. induction ch as [|x l IHl]; intros j; cbn; [reflexivity|].
+    rewrite IHl. f_equal. destruct (j =? k); [apply IH|reflexivity].
+Qed.
+
+(* the aggregates NewTree stores after an extension are those of the final tree: whatever an
+   earlier NewTree left in the nodes (stale values on the path to the root) is overwritten *)
+Theorem newtree_after_extension : forall path (c n : tnode),
+  with_aggs gadd (add_child path c (with_aggs gadd n)) = with_aggs gadd (add_child path c n).
+Proof.
+  intros path c n.
+  rewrite <- (with_aggs_strip G gadd (add_child path c (with_aggs gadd n))).
+  rewrite <- (with_aggs_strip G gadd (add_child path c n)).
+  rewrite !strip_add_child, strip_with_aggs. reflexivity.
+Qed.
+
 End Proofs.
+
+(* a tree used, extended under the root and under a child, and made into a tree again: every
+   node on the path to the root gets its new aggregate *)
+Example extension_example :
+  let s := fun i k => mkSrv i k [] false in
+  let t1 := with_aggs Nat.add (Node 101 (s 1 10) 0 None [Node 102 (s 2 20) 1 None []]) in
+  let t2 := with_aggs Nat.add (add_child [0] (Node 104 (s 4 40) 3 None [])
+                                 (add_child [] (Node 103 (s 3 30) 2 None []) t1)) in
+  map (fun x => n_agg x) (flat t1) = [Some 30; Some 20] /\
+  map (fun x => n_agg x) (flat t2) = [Some 100; Some 60; Some 40; Some 30].
+Proof. split; reflexivity. Qed.
 
 (* the hypotheses are satisfiable, with a root that is not member 0: 5 servers, binary, root 3 *)
 Definition g_ro : roster nat :=
